@@ -30,7 +30,7 @@ SPEC = {
     "translators": [translate_glue, build_lsp],
     "tiers": {
         "quick": {"cases": 330, "extra": {"lexreps": 4}},
-        "thorough": {"cases": 20000, "extra": {"lexreps": 99}},
+        "thorough": {"cases": 12000, "extra": {"lexreps": 99}},
     },
     # model and implementation are compared on the formatters' complete replies; what the property
     # itself says is evaluated on the implementation's output by the oracle (extra()), so a
@@ -77,41 +77,26 @@ CONTENT = ("tokens", "strings", "comments", "pragmas")
 
 
 def explain(op, what, g_src, g_doc):
-    """Known-finding ids that explain a failure of `op` (`what` differs / happened), given the guards the
-    model computed for the source document (g_src) and for the document the request ran on (g_doc)."""
+    """Ids of the OPEN findings that explain a failure of `op` (`what` differs / happened), given the guards
+    the model computed for the source document (g_src) and for the document the request ran on (g_doc).
+    Repaired findings (glue hazards, panic, multi-line pragma, colon in literal, range index, stray CR)
+    explain nothing any more: their witnesses are still run, and a failure there is a violation."""
     both = g_src | g_doc
     out = set()
-    glue = any(g.startswith("glue:") for g in both)
     if what == "panic":
-        if "indent-underflow-panic" in g_doc:
-            out.add("C15-indent-underflow-panic")
         return out
     if op in ("full", "range", "ontype") and what in CONTENT:
-        if glue and what in ("tokens", "strings", "comments"):
-            out.add("C15-glue-hazards")
-        if "multiline-pragma" in g_src:
-            out.add("C15-multiline-pragma")
-        if "var-colon-in-token" in g_src and what in ("tokens", "strings"):
-            out.add("C15-var-colon-in-literal")
         if "open-ended-error-token" in g_src and what == "tokens":
             out.add("C15-open-ended-error-token")
         if "exotic-space-token" in g_src and what == "tokens":
             out.add("C15-exotic-space")
         if "irregular-token" in g_src and what == "tokens":
             out.add("C15-lexer-context-dependent-token")
-        if op in ("range", "ontype") and "wrapped" in g_src:
-            out.add("C15-wrap-range-index")
     elif op == "idem":
         if "wrapped" in both:
             out.add("C15-wrap-not-idempotent")
-        if glue:
-            out.add("C15-glue-hazards")
-        if "multiline-pragma" in both:
-            out.add("C15-multiline-pragma")
         if "open-ended-error-token" in both:
             out.add("C15-open-ended-error-token")
-        if "var-colon-in-token" in both:
-            out.add("C15-var-colon-in-literal")
         if "irregular-token" in both:
             out.add("C15-lexer-context-dependent-token")
     elif op == "web" and what in CONTENT:
@@ -121,9 +106,6 @@ def explain(op, what, g_src, g_doc):
             out.add("C15-open-ended-error-token")
         if what == "tokens" and "exotic-space-token" in g_src:
             out.add("C15-exotic-space")
-    elif op == "web-idem":
-        if "web-stray-cr" in both:
-            out.add("C15-web-stray-cr")
     return out
 
 
@@ -174,9 +156,9 @@ def extra(ctx):
                 n_fail += 1
                 g_src = guards.get((c.n, 0), set())
                 g_doc = guards.get((c.n, docs.get(o["doc"], 0)), set())
-                ids = explain(o["op"], o["what"], g_src, g_doc)
-                unknown = [i for i in ids if i not in open_findings]
-                if ids and not unknown:
+                ids = {i for i in explain(o["op"], o["what"], g_src, g_doc) if i in open_findings}
+                unknown = []
+                if ids:
                     for i in ids:
                         known_hits[i] = known_hits.get(i, 0) + 1
                         if "witness" in c.tags:
@@ -187,7 +169,7 @@ def extra(ctx):
                         "case": c.n, "seed": seed, "tier": tier, "config": cfg,
                         "source": texts.get("source", ""), "document": texts.get(o["doc"], ""),
                         "operation": o["op"], "guards_violated": sorted(g_src | g_doc),
-                        "classified_as": sorted(ids), "not_a_known_finding": unknown or "no guard of a _partial theorem is violated",
+                        "classified_as": sorted(ids), "not_a_known_finding": "no guard of an open finding is violated",
                         "replay_cmd": f"./check.py C15 --replay <this file>",
                     })
         for g in guards.get((c.n, 0), set()):
@@ -232,40 +214,38 @@ def replay(obj):
 
 
 MANIFEST["level_text"] = (
-    "Proved in Lean 4, unbounded, about a function-by-function model of both formatters whose glue table, keyword lists, "
-    "block tables and vendor profiles are regenerated from the Rust source on every run: (1) c15_glue_table / "
-    "c15_glue_safe_partial - decided by the kernel over all 46x46 token-class pairs and both spacing styles: should_glue "
-    "never writes two tokens without a separator unless the pair is class-safe or is one of the 44 recorded hazard pairs; "
-    "c15_line_tokens - hence the line emitted by format_line_tokens lexes to exactly the tokens it was made from (keywords "
-    "re-cased, c15_recase) for every hazard-free token list, every style and keyword case, relative to the abstract lexer "
-    "interface LexIface; (2) c15_verbatim_block / _line / _wrap / c15_verbatim_document - every block-comment line and every "
-    "line carrying a line comment or pragma reaches the final output unchanged up to indentation, in order, through the colon "
-    "alignment, assignment alignment and wrapping passes for every configuration; (3) c15_range_edit - the edit built by "
-    "format_lines_edit replaces exactly source lines a..b by formatted lines a..b (LF texts, range not touching the last "
-    "line); c15_full_edit - full formatting is no edit or one whole-document edit; (4) c15_no_panic_aligned - with "
-    "endKeywordStyle=aligned the line loop never underflows the indent; (5) web formatter: c15_web_lines (each output line = "
-    "spaces ++ source line without leading white space / trailing blanks), c15_web_nonws (non-white-space text preserved for "
-    "every text), c15_web_idempotent_partial (idempotent on every text without a stray CR). The code VIOLATES the full "
-    "property in eleven ways; each has a proved counterexample on the model (c15_glue_safe_counterexample, "
-    "c15_glue_counterexample_typed_literal [valid programs: `x MOD INT#5` -> `x MODINT#5`], _comment, _compact, "
-    "c15_range_edit_counterexample, c15_wrap_idempotent_counterexample, c15_panic_counterexample, c15_pragma_counterexample / "
-    "c15_tokenless_line_dropped, c15_var_colon_counterexample, c15_web_idempotent_counterexample, "
-    "c15_web_comment_counterexample), a witness replayed on every run through the real LSP server / WebIdeState, and an open "
-    "entry in known_findings.json matched by the decidable guard of the corresponding _partial theorem."
+    "Proved in Lean 4, unbounded, about a function-by-function model of both formatters (as repaired by 0cc0118, 2b1ad0b, "
+    "997b5b5, b483235, 26b5189, 944815f, 6232ed3) whose glue table, keyword lists, block tables and vendor profiles are "
+    "regenerated from the Rust source on every run: (1) c15_line_tokens - IN FULL: the text format_line_tokens returns (glued "
+    "text when the re-lex guard accepts it, one-space fallback otherwise) lexes to exactly the tokens it was made from, keywords "
+    "re-cased (c15_recase), for every list of valid tokens, every style and keyword case, relative to the abstract lexer "
+    "interface LexIface; c15_glue_table / c15_glue_safe (kernel-decided over 46x46 classes x 2 styles) and "
+    "c15_glued_line_relexes: the fallback can only be taken on one of 34 recorded class pairs; (2) c15_verbatim_block / _line "
+    "/ _wrap / c15_verbatim_document: block-comment lines, lines of multi-line tokens and lines with a line comment or pragma "
+    "reach the final output unchanged up to indentation, in order, through all post passes; c15_colon_guard: no colon index "
+    "when the first ':' is not a Colon token; (3) c15_range_edit (the edit replaces exactly source lines a..b by formatted "
+    "lines a..b; LF texts, range not touching the last line) + c15_range_line_count (without wrapping - range/on-type "
+    "formatting never wrap - one formatted line per source line) + c15_full_edit; (4) c15_no_panic - for every configuration "
+    "the indent never underflows; (5) web formatter: c15_web_lines, c15_web_nonws, c15_web_idempotent - IN FULL for every text. "
+    "Still violated by the code, each with a proved counterexample or a replayed witness and an OPEN entry in "
+    "known_findings.json: LSP formatting is not idempotent after wrapping (c15_wrap_idempotent_counterexample), the web "
+    "formatter re-indents the interior of multi-line comments / pragmas (c15_web_comment_counterexample), open-ended Error "
+    "tokens, Unicode white space Error tokens, context-dependent lexer labels."
 )
 MANIFEST["level_note"] = (
     "Correspondence: complete replies of textDocument/formatting, rangeFormatting, onTypeFormatting (trust-lsp binary over "
     "stdio; client settings through every key alias, FormattingOptions, vendor profile via trust-lsp.toml) and of "
     "WebIdeState::format_source are compared with the model on every generated case, plus second formatting (idempotence) "
-    "and an oracle that evaluates the property's own statement on the implementation's output with trust_syntax::lex. "
-    "Tested, not proved: that the alignment / wrapping passes change only white space outside verbatim lines, idempotence of "
-    "the LSP formatter, document-level token preservation (c15_line_tokens is per line), token preservation by the web "
-    "formatter (c15_web_lines gives it only for single-line tokens). Trusted: Lean kernel + propext/Quot.sound/"
-    "Classical.choice; the hand model; the translator (fails closed on a restructured should_glue); the harness; LexIface: "
-    "its pair-safety table classSafe is validated against the real lexer each run (soundness on every class pair x "
-    "representative texts x continuations, and a real-lexer witness for every recorded hazard), its locality clause is only "
-    "exercised by the oracle. The real lexer has backtracking quirks (`1.5ELSE` lexes as `1.5E`,`LSE`; `D#` is an Ident in "
-    "`D#2024-01 ;`) which the table records. Comments are compared modulo trailing blanks of line comments and CRLF/LF inside "
-    "multi-line comments / pragmas. A failure of the oracle is a violation unless the guard of a _partial theorem is violated "
-    "on that input AND the matching finding is open in known_findings.json."
+    "and an oracle that evaluates the property's own statement on the implementation's output with trust_syntax::lex. The "
+    "verdict of the re-lex guard is an INPUT of the model: the model prints its glued line texts (driver c15 glued), the "
+    "harness lexes them with the real lexer (relexes_to) and feeds the verdicts back (`relex` lines); c15_line_tokens assumes "
+    "exactly that the verdict is what the lexer says. Tested, not proved: the token-to-line assignment of buildDoc (incl. the "
+    "verbatim marking of multi-line tokens), that the alignment / wrapping passes change only white space outside verbatim "
+    "lines, idempotence of the LSP formatter, document-level token preservation (c15_line_tokens is per line), token "
+    "preservation by the web formatter. Trusted: Lean kernel + propext/Quot.sound/Classical.choice; the hand model; the "
+    "translator (fails closed on a restructured should_glue); the harness; LexIface (classSafe validated against the real "
+    "lexer each run on every class pair x representative texts x continuations, with a real-lexer witness for every recorded "
+    "pair; locality only exercised by the oracle). Repaired findings keep their witness cases: a regression is an oracle "
+    "failure no open finding explains, i.e. a violation with the witness as failing input. Comments are compared modulo "
+    "trailing blanks of line comments and CRLF/LF inside multi-line comments / pragmas."
 )
